@@ -462,6 +462,23 @@ func (d Driver) Run(c *core.Ctx) error {
 		c.Count(n*int64(len(Embeddings)), 0, n*int64(len(Embeddings)))
 		c.AddExtra("tlc_scenarios", n)
 	}
+	// the generation runs are independent: three TLC instances at a time (their start-up and the single-threaded
+	// computation of initial states overlap)
+	sem := make(chan struct{}, 3)
+	var wg sync.WaitGroup
+	seq := run
+	run = func(o tlc.Opts) {
+		wg.Add(1)
+		sem <- struct{}{}
+		go func() {
+			defer wg.Done()
+			defer func() { <-sem }()
+			if o.Workers == 0 {
+				o.Workers = 6
+			}
+			seq(o)
+		}()
+	}
 	onlyPara := os.Getenv("C17_ONLY") == "para" // development aid
 	if !onlyPara {
 		runSmall(c, run)
@@ -470,6 +487,7 @@ func (d Driver) Run(c *core.Ctx) error {
 	for _, pc := range [][3]int{{9, 20, 25}, {9, 26, 31}, {11, 26, 33}} {
 		run(tlc.Opts{Module: "KnuthPlass", Config: cfg("para", pc[0], c.Pick(500, 5000), pc[1], pc[2], "std", false), Seed: c.Seed + int64(100+pc[0]+pc[1])})
 	}
+	wg.Wait()
 	c.Count(0, nontrivial, 0)
 	c.SetExtra("scenarios_with_feasible_breaking", feas)
 	c.SetExtra("scenarios_relaxation_clause", relax)
